@@ -45,7 +45,7 @@ func genExpScenario(rt *rapid.T) expScenario {
 	for i := 0; i < n; i++ {
 		at += rapid.IntRange(0, 6).Draw(rt, "gap") * 100
 		a := expAction{AtMs: at, Key: pick(rt, keys, "key"), C: rapid.IntRange(0, sc.Colls-1).Draw(rt, "c")}
-		a.K = pick(rt, []string{"Add", "Set", "SetPreserve", "WriteCas", "Touch", "Touch", "GetAndTouchRaw", "WriteWithXattrs", "Update", "UpdateXattrs", "Delete", "Incr", "Reopen"}, "k")
+		a.K = pick(rt, []string{"Add", "ReAdd", "Set", "SetPreserve", "WriteCas", "Touch", "Touch", "GetAndTouchRaw", "GetAndTouchRaw", "WriteWithXattrs", "Update", "UpdateXattrs", "Delete", "Incr", "Reopen"}, "k")
 		a.TTL = pick(rt, []int{1, 1, 2, 2, 3, 4, 0, 60, 3600}, "ttl")
 		a.Abs = rapid.Bool().Draw(rt, "abs")
 		if a.K == "Reopen" && !sc.Disk {
@@ -135,7 +135,13 @@ func runExpScenario(sc expScenario, windowSec int) (res expResult) {
 		body := []byte(fmt.Sprintf(`{"at":%d}`, a.AtMs))
 		wrote := false
 		switch a.K {
-		case "Add":
+		case "Add", "ReAdd":
+			if a.K == "ReAdd" {
+				// insert over a tombstone: the key is deleted first (no matter whether it existed)
+				if ds.Delete(a.Key) == nil {
+					m.live, m.deadline = false, 0
+				}
+			}
 			var added bool
 			added, err = ds.Add(a.Key, exp, body)
 			if err == nil && added {
